@@ -15,8 +15,11 @@ SCENARIOS = {"one-group": 2, "multi-group": 2, "aerotech": 1, "big": 1}
 TIERS = {"quick": {"runs": 6000, "chunk": 20}, "thorough": {"runs": 50000000, "wall_s": 600, "chunk": 100, "recheck": 16}}
 RULE = ("one run = 1-10 simulated terminals (input/output sizes 0..max, read-write flag, "
         "FMMU or direct addressing, optionally Aerotech-style with declared packet sizes), "
-        "1-3 real slow SyncGroups on one master (a terminal is written by at most one "
-        "group), started on the simulated bus and cycled; terminals fill their inputs with "
+        "1-3 real slow SyncGroups, each with 1-3 devices that may share terminals (written by "
+        "some, only read by others), on one master - an EtherCat or (35 % of the multi-group "
+        "runs) a ParallelEtherCat drawing its windows from the FMMULock file, whose allocator "
+        "has handed out 0..1024 windows before each group (a terminal is written by at most "
+        "one group), started on the simulated bus and cycled; terminals fill their inputs with "
         "a pattern unique to (terminal, offset, cycle) and record what lands in their "
         "outputs; oracles on the returned frames (end-to-end through FMMU emulation), on "
         "the regions of pdo_assign and on the logical windows; 'big' draws sizes that make "
@@ -208,8 +211,13 @@ def run(tape, scenario, want_c11=False):
     def check_sterile(gi, sg):
         """C11: a sterile copy differs from the assembled frame only in the command
         byte of the write datagrams, which is NOP"""
-        full = sg.packet.assemble(77, 0x88A4)
-        ster = bytes(sg.packet.sterile(77, 0x88A4))
+        try:
+            full = sg.packet.assemble(77, 0x88A4)
+            ster = bytes(sg.packet.sterile(77, 0x88A4))
+        except Exception as e:
+            viol("sterile-differs", f"group {gi}: assemble/sterile raised "
+                 f"{type(e).__name__}: {e}", exception=type(e).__name__)
+            return
         try:
             _, _, dg = parse_ecat(full)
         except Exception as e:
